@@ -99,7 +99,7 @@ def cmd_run(args):
 
         if not os.path.exists(filepath):
             if not args.quiet:
-                print(f"  {source['name']}: File not found - {source['file']}")
+                print(f"  {source.get('name', 'CSV')}: File not found - {source['file']}")
             continue
 
         # Get parser type and format spec (set by config_loader.resolve_source_format)
@@ -121,17 +121,17 @@ def cmd_run(args):
                                          data_sources=supplemental_data)
             else:
                 if not args.quiet:
-                    print(f"  {source['name']}: Unknown parser type '{parser_type}'")
+                    print(f"  {source.get('name', 'CSV')}: Unknown parser type '{parser_type}'")
                     print(f"    Use 'tally inspect {source['file']}' to determine format")
                 continue
         except Exception as e:
             if not args.quiet:
-                print(f"  {source['name']}: Error parsing - {e}")
+                print(f"  {source.get('name', 'CSV')}: Error parsing - {e}")
             continue
 
         all_txns.extend(txns)
         if not args.quiet:
-            print(f"  {source['name']}: {len(txns)} transactions")
+            print(f"  {source.get('name', 'CSV')}: {len(txns)} transactions")
 
     if not all_txns:
         print("Error: No transactions found", file=sys.stderr)
